@@ -31,7 +31,7 @@ ASSUMPTIONS = [
     "the documented '// Generated using fcp ... on ... by ...' line of the C++ generator is blanked before comparing",
     "hash-seed dependence is sampled (3 seeds per schema), not enumerated",
 ]
-FLOORS = {"multi_protocol": 0.3, "service": 0.15, "signal_block": 0.2, "history_ge2": 0.5, "gen_cpp": 0.1, "gen_dbc": 0.1,
+FLOORS = {"multi_protocol": 0.3, "service": 0.15, "signal_block": 0.2, "history_ge2": 0.4, "gen_cpp": 0.1, "gen_dbc": 0.1,
           "gen_can_c": 0.1}
 GENERATORS = ["dbc", "can_c", "cpp", "nop"]
 BROKEN = ['version: "3"\nstruct S { a @0: Nope, }', 'version: "3"\nstruct $', 'version: "2"', 'version: "3"\nenum E { }',
